@@ -26,6 +26,15 @@ func Create(path string) *W {
 // M is one trace line.
 type M map[string]interface{}
 
+// Discard returns a writer that drops everything.
+func Discard() *W {
+	f, err := os.OpenFile(os.DevNull, os.O_WRONLY, 0)
+	if err != nil {
+		panic(err)
+	}
+	return &W{f: f, w: bufio.NewWriter(f)}
+}
+
 func (w *W) Emit(m interface{}) {
 	b, err := json.Marshal(m)
 	if err != nil {
